@@ -126,4 +126,36 @@ theorem fold_facts (all kept : List MdEntry) (h : foldCols all = .ok kept) :
   refine ⟨fun e he => this.1 e (.inr he), fun k hk => ?_, this.2.2⟩
   have := this.2.1 k hk; simpa using this
 
+/-- first appearance: an entry is kept iff no earlier entry (of any column) has its C-string name -/
+def firstAppearance : List MdEntry → List MdEntry → List MdEntry
+  | _, [] => []
+  | seen, e :: es =>
+    if seen.any (fun s => Md.nameEq s.name e.name) then firstAppearance (e :: seen) es
+    else e :: firstAppearance (e :: seen) es
+
+theorem fold_is_firstAppearance' (es kept last r : List MdEntry) (h : foldColsAux es kept last = .ok r) :
+    r = kept.reverse ++ firstAppearance last es := by
+  induction es generalizing kept last with
+  | nil => simp [foldColsAux] at h; simp [firstAppearance, h]
+  | cons e es ih =>
+    simp only [foldColsAux] at h
+    cases hf : last.find? (fun l => Md.nameEq l.name e.name) with
+    | none =>
+      simp only [hf] at h
+      have := ih (e :: kept) (e :: last) h
+      have hany : last.any (fun s => Md.nameEq s.name e.name) = false := by
+        rw [List.any_eq_false]; intro x hx
+        have := List.find?_eq_none.mp hf x hx; simpa using this
+      simp [firstAppearance, hany, this]
+    | some p =>
+      simp only [hf] at h
+      split at h; · simp at h
+      split at h; · simp at h
+      have := ih kept (e :: last) h
+      have hany : last.any (fun s => Md.nameEq s.name e.name) = true := by
+        rw [List.any_eq_true]
+        exact ⟨p, List.mem_of_find?_eq_some hf, by have := List.find?_some hf; simpa using this⟩
+      simp [firstAppearance, hany, this]
+
+
 end Sbdf
